@@ -8,6 +8,7 @@
   text its predecessor left, stopping at the first that does not let it through".
 -/
 import NemoVerif.Lemmas.Pipeline
+import NemoVerif.Lemmas.PipelineV2
 import NemoVerif.Lemmas.PipelineTie
 
 namespace NemoVerif.C02
@@ -118,5 +119,79 @@ example : ∃ (cfg : Cfg) (t : Turn), WF cfg .input ∧ WF cfg .output ∧ gateS
    { user := "u", bot := "b", intent := .free, actFault := false, retrFault := false,
      vin := fun _ _ => .accept, vout := fun r _ => if r = 1 then .rewrite "m" else .accept },
    fun _ _ => rfl, fun _ _ => rfl, by decide, by decide, by decide, by decide⟩
+
+/-! ### Colang 2.x (guardrails.co) -/
+
+/-- `output_all_rails` (2.x): whatever is uttered in a turn is the fixed refusal, or the LLM text after
+    all configured output rails ran on it, in order, and none blocked. -/
+theorem output_all_rails_v2 (cfg : Cfg) (h : HistV2) (t : Turn) (hi : WF cfg .input) (ho : WF cfg .output) (hor : h.orip = false)
+    (x : Text) (hx : Step.utter x ∈ (turnV2 cfg h t).1) :
+    x = refusal ∨
+      (x = t.bot
+        ∧ railCalls .output (turnV2 cfg h t).1 = gate (n2 t.vout) cfg.outRails t.bot
+        ∧ (gate (n2 t.vout) cfg.outRails t.bot).map Prod.fst = cfg.outRails
+        ∧ (∀ c ∈ gate (n2 t.vout) cfg.outRails t.bot, (n2 t.vout c.1 c.2).continues = true)) := by
+  rw [turnV2_eq_spec cfg h t hi ho hor, turnSpecV2_trace] at hx ⊢
+  rcases List.mem_append.mp hx with h1 | h1
+  · rcases List.mem_append.mp h1 with h2 | h2
+    · simp [railSteps] at h2
+    · exact Or.inl (utter_mem_inStopV2 _ _ _ _ x h2)
+  · rcases utter_mem_restV2 cfg h t x h1 with h2 | ⟨hb, hin, hout, hcalls⟩
+    · exact Or.inl h2
+    · refine Or.inr ⟨hb, ?_, Pipeline.gate_full _ _ _ hout, Pipeline.gate_all_continue _ _ _ hout⟩
+      simp [hin, inStopV2, railCalls_railSteps_other .output .input (by decide), hcalls, railCalls]
+
+/-- `blocked_never_uttered` (2.x): if an output rail invoked on the LLM text rejects it (or fails), the
+    LLM text is not uttered — only the refusal can be. -/
+theorem blocked_never_uttered_v2 (cfg : Cfg) (h : HistV2) (t : Turn) (hi : WF cfg .input) (ho : WF cfg .output) (hor : h.orip = false)
+    (hb : gateStop (n2 t.vout) cfg.outRails t.bot ≠ none) :
+    ∀ x, Step.utter x ∈ (turnV2 cfg h t).1 → x = refusal := by
+  intro x hx
+  rw [turnV2_eq_spec cfg h t hi ho hor, turnSpecV2_trace] at hx
+  rcases List.mem_append.mp hx with h1 | h1
+  · rcases List.mem_append.mp h1 with h2 | h2
+    · simp [railSteps] at h2
+    · exact utter_mem_inStopV2 _ _ _ _ x h2
+  · rcases utter_mem_restV2 cfg h t x h1 with h2 | ⟨_, _, hout, _⟩
+    · exact h2
+    · exact absurd hout hb
+
+/-- `later_turns_checked` (2.x, state invariant): with the repaired `run output rails`
+    (`cfg.flagReset`, computed by the translator from the parsed guardrails.co),
+    `$output_rails_in_progress` is `False` at the end of every turn, whatever happened in it. -/
+theorem later_turns_checked_v2 (cfg : Cfg) (h : HistV2) (t : Turn) (hfr : cfg.flagReset = true) (hor : h.orip = false) :
+    (turnV2 cfg h t).2.2.orip = false :=
+  turnV2_orip cfg h t hfr hor
+
+/-- … hence every turn of every conversation utters only the refusal or fully checked LLM text. -/
+theorem every_turn_checked_v2 (cfg : Cfg) (hfr : cfg.flagReset = true) (hi : WF cfg .input) (ho : WF cfg .output) :
+    ∀ (ts : List Turn) (h : HistV2), h.orip = false →
+      ∀ p ∈ List.zip ts (convV2 cfg h ts), ∀ x, Step.utter x ∈ p.2.1 →
+        x = refusal ∨ (x = p.1.bot ∧ railCalls .output p.2.1 = gate (n2 p.1.vout) cfg.outRails p.1.bot
+          ∧ (gate (n2 p.1.vout) cfg.outRails p.1.bot).map Prod.fst = cfg.outRails)
+  | [], _, _ => by simp [convV2]
+  | t :: ts, h, hor => by
+    intro p hp x hx
+    simp only [convV2, List.zip_cons_cons, List.mem_cons] at hp
+    rcases hp with rfl | hp
+    · rcases output_all_rails_v2 cfg h t hi ho hor x hx with h1 | ⟨a, b, c, _⟩
+      · exact Or.inl h1
+      · exact Or.inr ⟨a, b, c⟩
+    · exact every_turn_checked_v2 cfg hfr hi ho ts _ (turnV2_orip cfg h t hfr hor) p hp x hx
+
+/-- The as-shipped discipline (`flagReset = false`: the flag is only reset on the success path) does
+    NOT have the property: after a turn whose output rail rejected, the next turn utters the LLM text
+    "bad" although its output rail — which would reject it — is never invoked.  (Kernel-evaluated
+    witness; it is the two-turn conversation of `harness/corpus/C02/v2_flag_stuck.json`.) -/
+theorem v2_as_is_counterexample :
+    ∃ (cfg : Cfg) (t1 t2 : Turn), cfg.flagReset = false ∧ WF cfg .input ∧ WF cfg .output ∧
+      (∀ x, t2.vout 0 x = .reject) ∧
+      let r1 := turnV2 cfg initV2 t1
+      let r2 := turnV2 cfg r1.2.2 t2
+      Step.utter "bad" ∈ r2.1 ∧ railCalls .output r2.1 = [] ∧ r2.2.1.texts = ["bad"] :=
+  ⟨{ inRails := [], outRails := [0], dialog := false, exc := false, stops := fun _ _ => true, flagReset := false },
+   { user := "u1", bot := "b1", intent := .free, actFault := false, retrFault := false, vin := fun _ _ => .accept, vout := fun _ _ => .reject },
+   { user := "u2", bot := "bad", intent := .free, actFault := false, retrFault := false, vin := fun _ _ => .accept, vout := fun _ _ => .reject },
+   rfl, fun _ _ => rfl, fun _ _ => rfl, fun _ => rfl, by decide, by decide, by decide⟩
 
 end NemoVerif.C02
